@@ -242,15 +242,58 @@ def run_unit(name, tier="quick", use_cache=True, canary=True, repo=None):
     res = {"unit": name, "status": "ok", "undecided": [], "obligations": [], "functions": [], "canaries": {},
            "trusted_base": [], "extraction": {}, "verus": {}}
     t0 = time.time()
-    try:
-        b = extract.Builder(unit_dir, repo=repo)
-        text, linemap = b.build(canary=None)
-    except (LostAnchor, ContractError, rs.ScanError) as e:
-        res["status"] = "undecided"
-        res["undecided"].append("extraction: %s" % e)
-        return res
+    auto_extra, skip_pieces = {}, set()
     gen = os.path.join(BUILD, "%s.rs" % name)
-    open(gen, "w").write(text)
+    xflags0 = unit_flags(unit_dir)
+    rflags0 = unit_rustc_flags(unit_dir)
+    for attempt in range(4):
+        try:
+            b = extract.Builder(unit_dir, repo=repo)
+            b.auto_extra = {k: list(v) for k, v in auto_extra.items()}
+            b.skip_pieces = set(skip_pieces)
+            text, linemap = b.build(canary=None)
+        except (LostAnchor, ContractError, rs.ScanError) as e:
+            res["status"] = "undecided"
+            res["undecided"].append("extraction: %s" % e)
+            return res
+        open(gen, "w").write(text)
+        if attempt == 3:
+            break
+        # adaptive step: a changed tree may call a new helper of the same file (pull it in, without a contract), or
+        # change a closure so that its spliced typed header no longer type-checks (drop that contract piece: fewer
+        # facts for the proof, never more).  Both only ever make obligations harder to discharge.
+        pre = verus.run(gen, use_cache=use_cache, extra=xflags0, rustc_extra=rflags0)
+        changed = False
+        fns_now = verus.fn_intervals(text)
+        for d in pre["diags"]:
+            if d["level"] != "error":
+                continue
+            msg = d["message"] or ""
+            here = [sp for sp in d["spans"] if sp["primary"] and sp["file"] and os.path.basename(sp["file"]) == os.path.basename(gen)]
+            if not here:
+                continue
+            fnn, rec = span_fn(here[0]["ls"], linemap, fns_now)
+            mfn = re.match(r"cannot find function `([A-Za-z_][A-Za-z0-9_]*)` in this scope", msg)
+            if mfn and rec.get("file"):
+                lst = auto_extra.setdefault(rec["file"], [])
+                if mfn.group(1) not in lst:
+                    lst.append(mfn.group(1))
+                    changed = True
+            elif d.get("code") and str(d["code"]).startswith("E0") and rec.get("clause") and fnn:
+                cl = rec["clause"]
+                piece = None
+                mc = re.match(r"closure(.+?)\.(header|requires|ensures)", cl)
+                if mc:
+                    piece = "closure %s" % mc.group(1)
+                elif cl.startswith("assert#"):
+                    piece = cl
+                if piece and (fnn, piece) not in skip_pieces:
+                    skip_pieces.add((fnn, piece))
+                    changed = True
+        if not changed:
+            break
+    if auto_extra or skip_pieces:
+        res["adapted"] = {"auto_extracted": auto_extra, "dropped_contract_pieces": sorted("%s %s" % x for x in skip_pieces)}
     json.dump(linemap, open(os.path.join(BUILD, "%s.linemap.json" % name), "w"))
     res["generated"] = gen
     res["extraction"] = b.report
@@ -281,6 +324,9 @@ def run_unit(name, tier="quick", use_cache=True, canary=True, repo=None):
             for c in f["clauses"]:
                 if c["kind"] in ("ensures", "invariant", "assert"):
                     add("%s::%s::%s" % (name, f["name"], c["id"]), f["name"], c["id"], c["tags"], loc, rs.norm(c["text"]))
+                elif c["kind"] == "dropped":
+                    o_ = add("%s::%s::%s" % (name, f["name"], c["id"]), f["name"], c["id"], c["tags"], loc, rs.norm(c["text"]))
+                    o_["status"] = "unknown"
     template_fns = []
     for f in fns:
         rec = linemap[f["start"] - 1] if f["start"] - 1 < len(linemap) else {}
@@ -475,6 +521,8 @@ def run_unit(name, tier="quick", use_cache=True, canary=True, repo=None):
         try:
             for k, lv in enumerate(levels):
                 b2 = extract.Builder(unit_dir, repo=repo)
+                b2.auto_extra = {k: list(v) for k, v in auto_extra.items()}
+                b2.skip_pieces = set(skip_pieces)
                 ctext, clinemap = b2.build(canary=lv)
                 ctext = add_template_canaries(ctext, clinemap, lv)
                 cgen = os.path.join(BUILD, "%s_canary%d.rs" % (name, k))
